@@ -83,6 +83,81 @@ func resolvePasses(c *Ctx) {
 		c.check(bad == token.NoPos, "resolve-pass:identical", bad, "Resolve never changes the visitor between passes",
 			"Resolve writes a field of the type-inference visitor after constructing it: later passes of the fixpoint run differently from the first (for example visiting only part of the program)")
 	}
+	// ---- FIXPOINT: the loop that repeats the passes is left only when a pass changed nothing (the change counter
+	// equals its value before the pass) or through the iteration-limit panic: the pass after the last change is
+	// the one that checks every call site against the final types, so no other condition may end the loop earlier
+	if rs := c.ssaFunc("internal/resolver", "Resolve"); rs != nil {
+		// the pass: a call from Resolve (or a helper) to a method that walks the program with the main visitor
+		var passCall ssa.Instruction
+		var loopFn *ssa.Function
+		for _, fn := range c.srcFuncs("internal/resolver") {
+			fn := fn
+			allInstrs(fn, func(in ssa.Instruction) {
+				if call, ok := in.(ssa.CallInstruction); ok {
+					if cal := call.Common().StaticCallee(); cal != nil && cal.Name() == "walkOrdered" {
+						// inside a loop? the block can reach itself
+						if reachableFromStrict(in.Block())[in.Block()] {
+							passCall, loopFn = in, fn
+						}
+					}
+				}
+			})
+		}
+		if passCall == nil {
+			c.undecided("resolve-pass:fixpoint-exit", rs.Pos(), "no loop that repeats the type-inference pass was found")
+		} else {
+			body := passCall.Block()
+			inLoop := map[*ssa.BasicBlock]bool{}
+			for b := range reachableFromStrict(body) {
+				if reachableFromStrict(b)[body] {
+					inLoop[b] = true
+				}
+			}
+			inLoop[body] = true
+			good, nExit := true, 0
+			why := ""
+			for lb := range inLoop {
+				for si, sc := range lb.Succs {
+					if inLoop[sc] {
+						continue
+					}
+					if len(sc.Instrs) > 0 {
+						if _, isPanic := sc.Instrs[len(sc.Instrs)-1].(*ssa.Panic); isPanic {
+							continue
+						}
+					}
+					nExit++
+					iff, ok := lb.Instrs[len(lb.Instrs)-1].(*ssa.If)
+					if !ok {
+						good, why = false, "an unconditional exit"
+						continue
+					}
+					bo, ok := iff.Cond.(*ssa.BinOp)
+					isCounter := false
+					if ok && (bo.Op == token.EQL || bo.Op == token.NEQ) {
+						for _, side := range []ssa.Value{bo.X, bo.Y} {
+							if f, _ := loadedField(side); f != nil && f.Name() == "updates" {
+								isCounter = true
+							}
+						}
+						// the exit edge is the "equal" edge
+						eqEdge := 0
+						if bo.Op == token.NEQ {
+							eqEdge = 1
+						}
+						if isCounter && si != eqEdge {
+							isCounter = false
+						}
+					}
+					if !isCounter {
+						good, why = false, "an exit under a condition other than 'the change counter did not move'"
+					}
+				}
+			}
+			c.check(good && nExit > 0, "resolve-pass:fixpoint-exit", posOr(passCall.Pos(), loopFn.Pos()), "the loop over the passes ends only when a pass changed nothing (or at the iteration limit)", "the loop that repeats the type-inference pass can be left by "+why+": the pass that checks every call against the final types may be skipped, so a conflict goes unreported and the compiler meets an array where it expects a scalar")
+		}
+	}
+
 	// ---- UNIFY: one iteration of the loop over a user call's arguments, evaluated on the SSA form for "the
 	// argument is a variable" with the callee native / not native: every path back to the loop head (or out of
 	// the function) has recorded a type (recordVar) - or ended in the conflict panic
